@@ -244,7 +244,7 @@ class _SSeq(SV):
         return cls(z3.String(fresh_name(hint)))
 
     def length(self):
-        return SInt(z3.Length(self.t))
+        return SInt(_smart_len(self.t))
 
     def __add__(self, o):
         if isinstance(o, (type(self), self._py)):
@@ -316,6 +316,24 @@ def _is_extract(t):
 
 def _is_empty_lit(t):
     return z3.is_string_value(t) and t.as_string() == ''
+
+
+def _smart_len(t):
+    """Length of a normalised sequence term, as arithmetic where the shape allows it: len(a ++ b) = len a + len b,
+    len(substr(s, lo, n)) = n when 0 <= lo, 0 <= n, lo + n <= len(s) is provable on the current path."""
+    if z3.is_string_value(t):
+        return z3.IntVal(len(t.as_string()))
+    if z3.is_app(t) and t.decl().kind() == z3.Z3_OP_SEQ_CONCAT:
+        out = None
+        for p in _parts(t):
+            l = _smart_len(p)
+            out = l if out is None else out + l
+        return z3.simplify(out)
+    if _is_extract(t):
+        base, lo, n = t.children()
+        if _prove(z3.And(lo >= 0, n >= 0, lo + n <= z3.Length(base))):
+            return n
+    return z3.Length(t)
 
 
 def _parts(t):
